@@ -6,12 +6,11 @@ import json
 import os
 import zipfile
 
-from sfv.framework import Ctx, Property
+from sfv.framework import Ctx, Inconclusive, Property
 from sfv.rt import cwldiff as C
 from sfv.rt import cwlgen_tool as GT
 from sfv.rt import cwlgen_wf as G
 from sfv.rt.hexs import hx
-from sfv.rt.par import pmap
 
 
 def _refs(o, acc):
@@ -267,7 +266,7 @@ class C34(Property):
     drivers = ["Drivers/C34.lean"]
     translators = []
     quick_budget_s = 1500
-    thorough_budget_s = 7200
+    thorough_budget_s = 2400
     min_nontrivial = 6
     rule = ("the workflow generator of C29 (1..6 steps, ExpressionTools, container-free CommandLineTools, scatter, linkMerge, pickValue, when, "
             "subworkflows, int/string/array/record/File values); each document is run with StreamFlow's cwl-runner entry point on a private "
@@ -337,16 +336,19 @@ class C34(Property):
         lines, meta = [], []
         io_lines, io_meta = [], []
         completed = 0
+        budget = self.quick_budget_s if ctx.tier == "quick" else self.thorough_budget_s
+        ctx.extra["documents_planned"] = len(cases)
         for start in range(0, len(cases), 12):
-            if start > 0 and ctx.time_left() < 200:
-                ctx.notes.append(f"budget: {len(cases) - start} documents not run")
+            if start > 0 and ctx.time_left() < 0.3 * budget:
+                ctx.notes.append(f"adaptive plan: {len(cases) - start} of {len(cases)} documents not run (70% of the budget used)")
                 break
-            for case, status, res in pmap(C.run_case, cases[start:start + 12], timeout=2400, workers=8):
+            try:
+                confirmed = list(C.run_cases_confirmed(cases[start:start + 12], time_left=ctx.time_left))
+            except C.Unconfirmed as e:
+                raise Inconclusive(str(e)) from e
+            for case, res in confirmed:
                 desc = descs[case["id"]]
                 rep = {"op": "doc", "doc": desc["doc"], "job": desc["job"], "file": case["doc"]}
-                if status != "ok":
-                    ctx.fail("hang:harness", f"{case['id']}: {status} {str(res)[:200]}", rep)
-                    continue
                 sf = res["sf"]
                 if C.outcome(sf) != "success":
                     ctx.case({"doc": case["id"], "run": C.outcome(sf)}, None, "run-did-not-complete")
@@ -434,6 +436,8 @@ class C34(Property):
         json.dump(r["job"], open(os.path.join(dd, "job.json"), "w"))
         res = C.run_case({"dir": dd, "doc": r.get("file", "wf.cwl"), "job": "job.json", "name": "wf", "timeout": 900, "prov": True, "only_sf": True})
         print("run:", C.outcome(res["sf"]), " export:", res.get("prov"))
+        if C._timed_out(res):
+            raise Inconclusive("replay: the run or the export did not finish within 900 s")
         pv = res.get("prov")
         if pv and pv["archive"]:
             probs, _, names = check_archive(pv["archive"], r["job"], res["sf"]["out"], dd)
